@@ -28,7 +28,7 @@ def nontrivial(evs):
 
 def run(c):
     g.model(c, "MCGossipsub_canary_fanout.cfg", "FanoutKept")
-    traces = g.drive(c, ["fanout"], 300, 5000)
+    traces = g.drive(c, ["fanout"], 600, 5000)
     g.validate(c, "TraceGossipsub_C35.cfg", traces, nontrivial)
     return c.finish(
         "model_checking",
